@@ -33,9 +33,10 @@ MANIFEST = dict(
          "at registration, pointers stored are NULL or point to used bytes, memcpy does not touch registered slots, the pointer written by "
          "write-and-register does not point into the buffer being appended to: no raw pointer kept across an allocation of its target). Also grow_abs / "
          "grow_wf (one growth is invisible / leaves no stale reference), alloc_abs, alloc_seq_abs (allocation-only special case), save_of_abs, grow_save. "
-         "Partial / outside the theorem: yr_arena_release and the duplicate-free `unspec` flag (a zeroed allocation served from never-cleared spare "
-         "capacity of a buffer that also received raw writes is flagged by the model, not described by abs); a pointer stored into an unregistered slot "
-         "and registered only after further allocations is outside OpsOK. The model is tied to arena.c by random operation sequences run by both; every "
+         "run_defined: if no zeroed allocation goes to a buffer that earlier received a raw one (KindsOK, decidable on the list) the model never flags "
+         "contents as unspecified (arena.c clears memory only on the growth path), whatever the configuration. Outside the theorems: yr_arena_release; a "
+         "pointer stored into an unregistered slot and registered only after further allocations (outside OpsOK: the raw pointer would be stale); "
+         "ERROR_INSUFFICIENT_MEMORY (reaching the 4 GB limit does depend on the initial size) is the one admitted difference between runs. The model is tied to arena.c by random operation sequences run by both; every "
          "sequence is run under two configurations (other initial size and/or always-move toggled) and the two IMPLEMENTATION runs must agree on every "
          "address-free output and saved image on the prefix inside OpsOK (computed by the abstract machine in the driver), which also re-checks the model "
          "against the abstract machine at run time. That the real compiler obeys the protocol (keeps references, not raw pointers, across allocations) is "
